@@ -331,6 +331,8 @@ M('F39R', 'src/xdoctest/parser.py', """                if lineno > prev_end:
 M('F40R', 'src/xdoctest/doctest_example.py', """                        found_lineno = 1
                     self.failed_tb_lineno = found_lineno""", """                        raise ValueError('Could not clean traceback: ex = {!r}'.format(_ex_dbg))
                     self.failed_tb_lineno = found_lineno""", ['C09'], 'F40 repair reverted: an error without a doctest frame escapes run()')
+M('F41R', 'src/xdoctest/utils/util_import.py', """        elif sys.path[self.index] != self.dpath:  # nocover""", """        if sys.path[self.index] != self.dpath:  # nocover""", ['C12'], 'F41 repair reverted: sys.path shrinking inside the context raises IndexError on exit')
+M('F33bR', 'src/xdoctest/static_analysis.py', """        pt = ast.parse(self.source.lstrip('\\ufeff'))""", """        pt = ast.parse(self.source.encode('utf8'))""", ['C16'], 'F33b repair reverted: the text of a module with an encoding cookie is decoded twice')
 M('F17R', 'src/xdoctest/doctest_example.py', """                part_directive = None
                 try:
                     try:
